@@ -156,6 +156,19 @@ func echo(i int, line string) {
 	send(line + "\n")
 }
 
+func expectedWarning(cmd string) string {
+	c := strings.TrimPrefix(cmd, "no ")
+	switch {
+	case sc.Type == "asa" && strings.HasPrefix(c, "access-list"):
+		return "WARNING: Same object-group is used more than once in one config line. This config is redundant.\n"
+	case sc.Type == "asa" && strings.HasPrefix(c, "crypto map"):
+		return "WARNING: The crypto map entry is incomplete!\n"
+	case sc.Type == "asa" && strings.HasPrefix(c, "tunnel-group"):
+		return "WARNING: L2L tunnel-groups that have names which are not an IP\n"
+	}
+	return "INFO: command is being processed\n"
+}
+
 func rejectText() string {
 	switch sc.Type {
 	case "asa":
@@ -197,6 +210,13 @@ func fault(i int, line string, r *rec, secretInput bool) bool {
 			echo(i, line)
 			send(rejectText() + prompt)
 		}
+		return true
+	case "warnreject":
+		// the device prints a warning the tool expects for this kind of command (or an INFO line)
+		// and THEN refuses the command
+		emit(r)
+		echo(i, line)
+		send(expectedWarning(line) + rejectText() + prompt)
 		return true
 	case "garbage":
 		emit(r)
